@@ -1148,8 +1148,11 @@ class _MissingImportFinder:
         self._visit_Store(name, value)
         if value is not None:
             # Storing 'a.b.c' looked up the prefixes stored just above; that
-            # is not a use of the import.
+            # is not a use of the import, nor of those it may have replaced
+            # (which were all unused when they were attached just above).
             value.used = False
+            for checker in value.shadowed:
+                checker.used = False
 
     def _visit_Store(self, fullname: str, value: Optional[_UseChecker] = None):
         """
